@@ -116,6 +116,12 @@ func (c *RunnerCloserManager) AddCloser(closers ...any) error {
 	c.mngr.lock.Lock()
 	defer c.mngr.lock.Unlock()
 
+	// Check again under the lock that Run holds while it starts and waits for the closers: otherwise a closer could be
+	// accepted after the closers were started and never be invoked.
+	if c.closing.Load() {
+		return ErrManagerAlreadyClosed
+	}
+
 	var errs []error
 	for _, cl := range closers {
 		switch v := cl.(type) {
